@@ -44,6 +44,8 @@ type netCfg struct {
 	preseed      bool
 	rejects      bool
 	allPull      int // 0 mixed, 1 all pull, 2 all push
+	advStranger, advRole, advRestart, advDup, advTerminal, advLocalRole bool
+	holdOpen     bool // the responder's application never lifts limits / releases finalization: channels stay open and quiescent
 	sendFail     bool // from some graphsync delivery on, every stream write fails (streams still open) until the settle phase
 }
 
@@ -103,6 +105,7 @@ type netRun struct {
 	extraChannelsAllowed int
 	crashed   bool
 	sendFailAt int
+	rawSent   []rawRec
 }
 
 var ctxBG = context.Background()
@@ -484,6 +487,9 @@ func (nr *netRun) installApps() {
 			}
 		}
 		chid := ev.Snap.ChID
+		if nr.cfg.holdOpen {
+			return
+		}
 		switch ev.Code {
 		case datatransfer.DataLimitExceeded:
 			progress := ev.Snap.Queued
@@ -800,6 +806,7 @@ func netTransfer(mk func(r *RunCtx) netCfg) func(r *RunCtx) {
 		nr.w.Net.Cut(nr.A.ID, nr.B.ID, false)
 		simrt.Sleep(30 * time.Minute)
 		nr.evaluate()
+		nr.adversarialPhase()
 		_ = nr.A.Mgr.Stop(context.Background())
 		_ = nr.B.Mgr.Stop(context.Background())
 	}
@@ -967,6 +974,11 @@ func (nr *netRun) wireMonitor() {
 				avail[fmt.Sprintf("%+v", w.Sum)]++
 			}
 		}
+		for _, rs := range nr.rawSent {
+			if rs.from == from.ID && rs.to == to.ID {
+				avail[fmt.Sprintf("%+v", rs.sum)]++
+			}
+		}
 		for _, w := range to.Wire {
 			if w.Dir != "recv" || w.Peer != from.ID {
 				continue
@@ -1043,6 +1055,28 @@ func init() {
 	Register("C10", Stratum{Name: "net-process-crash-and-restart", Weight: 3, Fn: netTransfer(crashCfg)})
 	Register("C06", Stratum{Name: "net-process-crash-and-restart", Weight: 2, Fn: netTransfer(crashCfg)})
 	Register("C09", Stratum{Name: "net-process-crash-and-restart", Weight: 1, Fn: netTransfer(crashCfg)})
+	advCfg := func(stranger, role, restart, dup, terminal, local bool) func(r *RunCtx) netCfg {
+		return func(r *RunCtx) netCfg {
+			c := base(r)
+			c.nCh = 1 + r.Intn(3)
+			c.advStranger, c.advRole, c.advRestart, c.advDup, c.advTerminal, c.advLocalRole = stranger, role, restart, dup, terminal, local
+			c.limits, c.finalization, c.forcePause, c.pauses = r.Intn(2) == 0, r.Intn(2) == 0, r.Intn(3) == 0, r.Intn(3) == 0
+			c.holdOpen = r.Intn(3) != 0 // mostly keep channels open and quiescent so that there is live state to protect
+			c.closes = r.Intn(4) == 0
+			return c
+		}
+	}
+	Register("C05", Stratum{Name: "net-adversary-strangers-and-role-confusion", Weight: 3, Fn: netTransfer(advCfg(true, true, false, false, false, true))},
+		Stratum{Name: "net-adversary-restart-requests", Weight: 3, Fn: netTransfer(advCfg(false, false, true, false, false, false))},
+		Stratum{Name: "net-adversary-all", Weight: 1, Fn: netTransfer(advCfg(true, true, true, true, true, true))})
+	Register("C18", Stratum{Name: "net-duplicate-new-requests", Weight: 3, Fn: netTransfer(advCfg(false, false, false, true, false, false))})
+	Register("C02", Stratum{Name: "net-terminal-followups", Weight: 3, Fn: netTransfer(func(r *RunCtx) netCfg {
+		c := advCfg(false, false, true, false, true, false)(r)
+		c.holdOpen = false
+		c.closes = r.Intn(2) == 0
+		c.rejects = r.Intn(3) == 0
+		return c
+	})})
 	Register("C14", Stratum{Name: "net-monitor-persistent-send-failure", Weight: 2, Fn: netTransfer(func(r *RunCtx) netCfg {
 		c := netCfg{nCh: 1, sendFail: true, monitorA: true, allPull: 2, stores: r.Intn(2) == 0}
 		c.monitorB = r.Intn(3) == 0
